@@ -13,6 +13,11 @@ class FnModel:
         self.paths = SymEx(prog, body, inline_depth=inline_depth, max_paths=max_paths).run()
 
     def __call__(self, *args):
+        chosen, env = self.select(*args)
+        return fold(chosen.ret, env, self.calls)
+
+    def select(self, *args):
+        """The path whose recorded conditions all hold for these arguments (and the environment)."""
         env = {i + 1: a for i, a in enumerate(args)}
         chosen = None
         for p in self.paths:
@@ -34,4 +39,4 @@ class FnModel:
                 chosen = p
         if chosen is None:
             raise CannotFold("no feasible path in %s for %r" % (self.body.name, args))
-        return fold(chosen.ret, env, self.calls)
+        return chosen, env
